@@ -76,12 +76,16 @@ OPS = {"<": "CLt", "<=": "CLe", "==": "CEq", "!=": "CNe", ">=": "CGe", ">": "CGt
 
 def cid_rows(spec):
     rows = [["D", "Format", spec["format"]]]
+    props = []
     if spec.get("header"):
-        rows.append(["D", "Header", str(spec["header"])])
+        props.append(["D", "Header", str(spec["header"])])
     if spec.get("allowed") is not None:
-        rows.append(["D", "Allowed characters", items_text(spec["allowed"])])
+        props.append(["D", "Allowed characters", items_text(spec["allowed"])])
     if spec["format"] == "fixed" and spec.get("line_delimiter"):
-        rows.append(["D", "Line delimiter", spec["line_delimiter"]])
+        props.append(["D", "Line delimiter", spec["line_delimiter"]])
+    # data format rows may stand anywhere behind the Format row: "late" puts them behind the fields
+    late = props if spec.get("late") else []
+    rows += [] if spec.get("late") else props
     for f in spec["fields"]:
         rule = ""
         if f["type"] == "Choice":
@@ -89,6 +93,7 @@ def cid_rows(spec):
         elif f["type"] == "Rec":
             rule = "|".join(f["choices"])
         rows.append(["F", f["name"], "", "X" if f["empty"] else "", items_text(f["length"]), f["type"], rule])
+    rows += late
     names = [f["name"] for f in spec["fields"]]
     for i, c in enumerate(spec.get("checks", [])):
         desc = "check%d" % i
@@ -298,6 +303,7 @@ def gen_spec(rnd, fmt=None, nfields=None, with_checks=True, rec=False, header=No
     spec = {"format": fmt, "header": rnd.choice([0, 0, 1, 2]) if header is None else header, "fields": fs, "checks": []}
     if rnd.random() < 0.3:
         spec["allowed"] = rnd.choice([[[97, 122]], [[32, 32], [97, 98]], [[0, 120]], [[98, None]]])
+        spec["late"] = rnd.random() < 0.5
     if fmt == "fixed" and rnd.random() < 0.5:
         spec["line_delimiter"] = rnd.choice(["lf", "cr", "crlf", "any"])
     if with_checks:
